@@ -109,7 +109,7 @@ def align(frame, pids_in_order, ref_pids):
     return out
 
 
-def compare_aligned(graph, a, b, pids, id_nodes, ptr_map=None, foreign=None):
+def compare_aligned(graph, a, b, pids, id_nodes, ptr_map=None, foreign=None, strict=False):
     """Compare two aligned result dicts over the persons `pids`.
 
     ptr_map: relabelling p_id(a-run) -> p_id(b-run) for pointer-valued outputs.
@@ -145,10 +145,18 @@ def compare_aligned(graph, a, b, pids, id_nodes, ptr_map=None, foreign=None):
                 detail[n]["dtypes"] = [str(av.dtype), str(bv.dtype)]
     frontier, needs_isolation, downstream = [], [], []
     for n in order:
-        if status[n] != "F":
+        if status[n] == "E" or (status[n] == "C" and not strict):
             continue
         par = [p for p in (graph["parents"].get(n, []) if graph else []) if p in status]
         pst = {status[p] for p in par}
+        if strict:
+            # bit-exact regime (same rows in the same relative order in both runs): the
+            # first node that is not bit-equal while all its parents are is the frontier
+            if pst & {"F", "C"}:
+                downstream.append(n)
+            else:
+                frontier.append(n)
+            continue
         if "F" in pst:
             downstream.append(n)
         elif "C" in pst:
